@@ -112,6 +112,8 @@ func g(n int, f func(int) bool) []bool {
 	}
 	s := string(out)
 	for _, want := range []string{
+		"go zzsimrt.GoCallL(func() {",
+		"}, zzsimrt.Spawn())",
 		"zzsimrt.WaitRecv(jobs); outer:",
 		"{ zzsimrt.WaitRecv(jobs); continue }",
 		"{ zzsimrt.WaitRecv(jobs); continue outer }",
